@@ -50,6 +50,9 @@ def gen(rng, tier):
             d['delta'] = [[q, s_, t] for q, s_, t in d['delta'] if q != b] + [[b, s_, t] for q, s_, t in d['delta'] if q == a]
             d['F'] = [q for q in d['F'] if q != b] + ([b] if a in d['F'] else [])
         ds.append({'Q': [m[q] for q in d['Q']], 'Sigma': d['Sigma'], 'delta': [[m[q], s_, m[t]] for q, s_, t in d['delta']], 'q0': m[d['q0']], 'F': [m[q] for q in d['F']]})
+    # larger DFAs (36-44 states, three symbols): more than ten classes, classes that break into many pieces in one refinement round
+    for _ in range(3 if quick else 40):
+        ds.append(G.random_dfa(rng, rng.randint(36, 44), 'abc', pfinal=0.5))
     cases = [{'D': d, 'log': i % 2 == 1} for i, d in enumerate(ds)]
     # the same object is minimised, modified in place (accepting set, transitions) and minimised again
     for i in range(100 if quick else 1500):
